@@ -33,7 +33,8 @@ RULE = ('cases: a list of 1-4 observables written to one dobs or pobs document a
         'different interior and data) written and read in both orders as strings, under one file name in two directories, overwriting one name, '
         'modify-the-list-and-write-again; alias cases: the same Obs at several positions; inputs as int32 / int64 / list / range lists, strided arrays, '
         'covariance as scalar / 1-d / 2-d with entries 1e-240..1e240 and gradients 1e-70..1e70, magnitudes 1e-150..1e150; file names with either extension '
-        'under either gz flag; every round trip is followed by argument-untouched and no-shared-memory judgements; '
+        'under either gz flag; configuration numbers beyond 2**31; spectator ensembles and zero gradient entries; second write of the same list gives the same document; '
+        'counters j:<mechanism> report how often each judgement ran; every round trip is followed by argument-untouched and no-shared-memory judgements; '
         'non-trivial: the document was read back and at least one observable with a fluctuating Monte-Carlo chain was compared; '
         'distinct = digest of (digests of the observables, format, transport, gz, separator mode)')
 ASSUMPTIONS = ['central values are written with 17 significant digits: compared with rtol 1e-15; covariance matrices and gradients are written with 15 '
@@ -107,7 +108,7 @@ def teardown(ctx):
 
 def plan(tier):
     m = 1 if tier == 'quick' else 36
-    return [('dobs', 700 * m), ('dobs_int', 350 * m), ('pobs', 300 * m), ('pobs_int', 120 * m), ('pobs_lists', 60 * m), ('history', 120 * m), ('alias', 80 * m)]
+    return [('dobs', 700 * m), ('dobs_int', 350 * m), ('pobs', 300 * m), ('pobs_int', 120 * m), ('pobs_lists', 60 * m), ('history', 160 * m), ('alias', 80 * m)]
 
 
 # ------------------------------------------------------------------------------------------
@@ -178,7 +179,12 @@ def make_dobs_list(ctx, rng, nobs, relation, data, nmax, master=None, cvs=None, 
             if how == 'primary' and len(prims) == 1:
                 o = prims[0]
             elif how in ('primary', 'linear'):
-                o = sum(float(rng.uniform(0.5, 2.0)) * p for p in prims)
+                coef = [float(rng.uniform(0.5, 2.0)) for p in prims]
+                if len(prims) > 1 and rng.random() < 0.2:
+                    # spectator ensemble: enters with coefficient exactly 0 (first or last slot)
+                    coef[int(rng.choice([0, len(prims) - 1]))] = 0.0
+                    ctx.count('spectator_ensembles')
+                o = sum(c * p for c, p in zip(coef, prims))
             elif how == 'product':
                 o = prims[0] * rt_io.primary(PE, rng, {c: list(prims[0].idl[c]) for c in prims[0].names}, 'white')
                 for p in prims[1:]:
@@ -191,7 +197,11 @@ def make_dobs_list(ctx, rng, nobs, relation, data, nmax, master=None, cvs=None, 
                     # tiny / huge gradients next to tiny / huge matrix entries
                     o = o + sum(float(10.0 ** rng.uniform(-70, 70)) * float(rng.choice([-1, 1])) * c for c in comps)
                     continue
-                lin = sum(float(rng.uniform(0.3, 2.0)) * float(rng.choice([-1, 1])) * c for c in comps)
+                cc = [float(rng.uniform(0.3, 2.0)) * float(rng.choice([-1, 1])) for c in comps]
+                if len(cc) > 1 and rng.random() < 0.25:
+                    cc[int(rng.choice([0, len(cc) - 1]))] = 0.0      # spectator component: gradient entry exactly zero
+                    ctx.count('spectator_gradient_entries')
+                lin = sum(k * c for k, c in zip(cc, comps))
                 o = o + lin if (data == 'int' or rng.random() < 0.5) else o * comps[0] + lin
         if data == 'real':
             # overall magnitude (applied last, so that fluctuations and central value scale together)
@@ -413,6 +423,18 @@ def run_dobs(ctx, rng, kind, idx, tmp):
         ctx.require(isinstance(r, dict) and 'obsdata' in r, 'dobs:full-output-form', {'type': type(r).__name__})
         r = r['obsdata']
     judge_list(ctx, rng, r, obsl, mode, 'dobs', opts, detail, before=before)
+    second_write(ctx, rng, 'dobs', obsl)
+
+
+def second_write(ctx, rng, fmt, obsl):
+    """The same argument objects handed to the writer a second time give the same document (header apart)."""
+    if rng.random() > 0.25 or not MON[fmt].docs:
+        return
+    first = MON[fmt].docs[-1]
+    second = DIO.create_dobs_string(obsl, 'obsname') if fmt == 'dobs' else DIO.create_pobs_string(obsl, 'obsname')
+    mark = '<%s>' % fmt
+    ctx.require(first.split(mark, 1)[-1] == second.split(mark, 1)[-1], fmt + ':second-write-of-the-same-objects-differs',
+                {'len_first': len(first), 'len_second': len(second)})
 
 
 def frozen_list(obsl):
@@ -540,6 +562,7 @@ def run_pobs(ctx, rng, kind, idx, tmp):
             ctx.nontrivial.add(digest([obs_digest(o) for o in obsl], repr(sorted(opts.items()))))
             return
     judge_list(ctx, rng, r, obsl, mode, 'pobs', opts, dict(opts), before=before)
+    second_write(ctx, rng, 'pobs', obsl)
 
 
 def restoring_mode(fmt, obsl):
